@@ -144,6 +144,30 @@ func UnifyNums2(n1, n2 Num, typ NumType) (u1, u2 Num) {
 	}
 }
 
+// UnifyNums2ForCmp is like UnifyNums2(n1, n2, 0), except that a mix of an
+// exact number and a float64 is unified without rounding the exact number, so
+// that comparing the results compares the mathematical values. A finite
+// float64 is converted to a *big.Rat, which is always exact. An exact number
+// next to an infinity or NaN is replaced by 0.0, which compares with them the
+// same way as any finite number.
+func UnifyNums2ForCmp(n1, n2 Num) (u1, u2 Num) {
+	f1, isFloat1 := n1.(float64)
+	f2, isFloat2 := n2.(float64)
+	switch {
+	case isFloat1 && !isFloat2:
+		if r := new(big.Rat).SetFloat64(f1); r != nil {
+			return r, PromoteToBigRat(n2)
+		}
+		return f1, 0.0
+	case !isFloat1 && isFloat2:
+		if r := new(big.Rat).SetFloat64(f2); r != nil {
+			return PromoteToBigRat(n1), r
+		}
+		return 0.0, f2
+	}
+	return UnifyNums2(n1, n2, 0)
+}
+
 // getNumType returns the type of the interface if the value is a number; otherwise, it panics since
 // that is a "can't happen" case.
 func getNumType(n Num) NumType {
